@@ -39,7 +39,40 @@ type Rec struct {
 	// count (1-based); scripted devices use it to raise interrupts or cancel.
 	Hook func(n int, a Access)
 	n    int
+	// undo journal (Begin / Rollback): lets a caller try alternative model
+	// outcomes on the same bus
+	journal bool
+	undo    []undoEntry
+	mark    struct{ log, nIn, n int }
 }
+
+type undoEntry struct {
+	addr uint16
+	val  uint8
+	gen  uint32
+}
+
+// Begin starts journalling writes so that Rollback can undo everything done
+// since (memory cells, the log, the port-read counter).
+func (r *Rec) Begin() {
+	r.journal = true
+	r.undo = r.undo[:0]
+	r.mark.log, r.mark.nIn, r.mark.n = len(r.Log), r.nIn, r.n
+}
+
+// Rollback undoes all accesses since Begin.
+func (r *Rec) Rollback() {
+	for i := len(r.undo) - 1; i >= 0; i-- {
+		u := r.undo[i]
+		r.val[u.addr], r.gen[u.addr] = u.val, u.gen
+	}
+	r.undo = r.undo[:0]
+	r.Log = r.Log[:r.mark.log]
+	r.nIn, r.n = r.mark.nIn, r.mark.n
+}
+
+// End stops journalling.
+func (r *Rec) End() { r.journal = false; r.undo = r.undo[:0] }
 
 // New allocates a Rec.
 func New() *Rec {
@@ -63,6 +96,8 @@ func (r *Rec) Reset(seed, ioseed uint64, fill, iofill int) {
 	r.n = 0
 	r.Hook = nil
 	r.NoLog = false
+	r.journal = false
+	r.undo = r.undo[:0]
 }
 
 func mix(x uint64) uint64 {
@@ -85,6 +120,9 @@ func (r *Rec) Peek(a uint16) uint8 {
 
 // Poke writes without logging (test set-up).
 func (r *Rec) Poke(a uint16, v uint8) {
+	if r.journal {
+		r.undo = append(r.undo, undoEntry{a, r.val[a], r.gen[a]})
+	}
 	r.val[a] = v
 	r.gen[a] = r.cur
 }
